@@ -30,12 +30,16 @@ type C09Plan struct {
 	AllOffsets  bool           `json:"all_offsets"`
 	Offsets     []int          `json:"offsets"`
 	ExtElements bool           `json:"ext_elements"`
+	// Multi > 0: one more message carries Multi undecodable sets at once (the
+	// position-independent ones of Inserts in turn)
+	Multi int `json:"multi,omitempty"`
 }
 
 // C09Insert places an undecodable set before set index Pos of M.
 type C09Insert struct {
-	Pos int       `json:"pos"`
-	Set model.Set `json:"set"`
+	Pos   int       `json:"pos"`
+	Set   model.Set `json:"set"`
+	Early bool      `json:"early,omitempty"` // undecodable only in front of the in-message announcement of its id
 }
 
 type c09Decoder struct {
@@ -84,6 +88,7 @@ func (d *c09Decoder) records(body []byte) (recs []string, msgNil bool, errText s
 type c09Run struct {
 	Findings []fileFinding
 	Inserts  int
+	Multi    int
 	Truncs   int
 	BaseRecs int
 	Len      int
@@ -151,6 +156,38 @@ func runC09(p *C09Plan, ch *simrt.Choices) *c09Run {
 					fmt.Sprintf("inserting an undecodable set (id %d, %d body octets) before set %d changed the records of the other sets: %d records (message nil=%v, err=%q), %d without it\nfirst difference: %s",
 						insID(p.Proto, &ins.Set), len(ins.Set.RawBody), pos, len(got), gotNil, gotErr, len(base), firstDiff(got, base))})
 				return
+			}
+		}
+		// (a') many undecodable sets in one message
+		if p.Multi > 0 {
+			var free []C09Insert
+			for _, ins := range p.Inserts {
+				if !ins.Early {
+					free = append(free, ins)
+				}
+			}
+			if len(free) > 0 {
+				m2 := *p.Msg.Abs
+				m2.Sets = append([]model.Set(nil), m2.Sets...)
+				for i := 0; i < p.Multi; i++ {
+					ins := free[i%len(free)]
+					pos := (ins.Pos + i) % (len(m2.Sets) + 1)
+					m2.Sets = append(append(append([]model.Set(nil), m2.Sets[:pos]...), ins.Set), m2.Sets[pos:]...)
+				}
+				d2 := Delivery{Abs: &m2}
+				body := encodeFlowInOrder(&d2, p.Exporter.Addr, cache)
+				if len(body) <= 65000 {
+					res.Inserts++
+					res.Multi++
+					simrt.Refill()
+					got, gotNil, gotErr := dec.records(body)
+					if gotNil || !equalStrings(got, base) {
+						res.Findings = append(res.Findings, fileFinding{"neighbour-corrupted", fmt.Sprintf("%s: many inserted sets", p.Proto),
+							fmt.Sprintf("inserting %d undecodable sets into the message changed the records of the other sets: %d records (message nil=%v, err=%q), %d without them\nfirst difference: %s",
+								p.Multi, len(got), gotNil, tail(gotErr, 300), len(base), firstDiff(got, base))})
+						return
+					}
+				}
 			}
 		}
 		// (b') truncation of messages that carry an undecodable set: cut inside
@@ -329,7 +366,7 @@ func genC09Plan(seed int64, tier string) *C09Plan {
 			// set that follows the announcement must still be decoded
 			x := inMsg[r.Intn(len(inMsg))]
 			s = model.Set{Kind: model.SetRaw, RawID: x.id, RawBody: append([]byte(nil), x.body...)}
-			p.Inserts = append(p.Inserts, C09Insert{Pos: r.Intn(x.at + 1), Set: s})
+			p.Inserts = append(p.Inserts, C09Insert{Pos: r.Intn(x.at + 1), Set: s, Early: true})
 			continue
 		}
 		switch r.Intn(3) {
@@ -368,6 +405,9 @@ func genC09Plan(seed int64, tier string) *C09Plan {
 		}
 		p.Inserts = append(p.Inserts, C09Insert{Pos: r.Intn(8), Set: s})
 	}
+	if r.Intn(2) == 0 {
+		p.Multi = []int{2, 3, 5, 9, 15, 16, 17, 31, 33, 64, 100, 250}[r.Intn(12)]
+	}
 	if tier == "thorough" || r.Intn(4) == 0 {
 		p.AllOffsets = true
 	} else {
@@ -402,6 +442,7 @@ func execC09(t *testing.T, prop string, planJSON []byte, ch *simrt.Choices, trac
 	out.TraceHash = uint64(res.BaseRecs)<<32 | uint64(res.Len)
 	out.Faults["net-truncate"] = res.Truncs
 	out.Faults["undecodable-set-inserted"] = res.Inserts
+	out.Faults["many-undecodable-sets-in-one-message"] = res.Multi
 	out.Probes["base-records"] = res.BaseRecs
 	if p.AllOffsets {
 		out.Probes["messages-with-every-truncation-offset"]++
